@@ -29,12 +29,17 @@ SLOW3 = {'PID_GH', 'PID_RAV', 'PID_CCS', 'PID_MES', 'PID_SKAR_owb'}
 KINDS = ['dyadic', 'kn', 'uniform', 'random']
 
 
-def gen_dist(rng, k, binary=False):
+FAST3 = ['PID_WB', 'PID_MMI', 'PID_GK', 'PID_PM', 'PID_RDR', 'PID_CCS', 'PID_MES', 'PID_Proj', 'PID_RR']
+
+
+def gen_dist(rng, k, binary=False, gate=None):
     n = k + 1
-    sizes = [2] * n if (binary or rng.random() < 0.7) else [rng.randint(2, 3) for _ in range(n)]
+    sizes = [2] * n if (binary or gate or rng.random() < 0.7) else [rng.randint(2, 3) for _ in range(n)]
+    pattern = gate or rng.choice(['xor', 'and', 'copy', 'random', 'random', 'full', 'unq', 'cat', 'dup'])
+    if pattern == 'cat':
+        sizes[-1] = 2 ** k
     alph = [list(range(s)) for s in sizes]
     full = [list(o) for o in itertools.product(*alph)]
-    pattern = rng.choice(['xor', 'and', 'copy', 'random', 'random', 'full', 'unq'])
     if pattern == 'xor':
         sup = [o for o in full if o[-1] == sum(o[:-1]) % sizes[-1]]
     elif pattern == 'and':
@@ -43,6 +48,14 @@ def gen_dist(rng, k, binary=False):
         sup = [o for o in full if o[-1] == o[0] % sizes[-1]]
     elif pattern == 'unq' and k == 2:
         sup = [o for o in full if o[-1] == (o[0] + 2 * o[1]) % sizes[-1]]
+    elif pattern == 'cat':
+        # the target is the concatenation of the (binary) sources
+        sup = [o for o in full if o[-1] == sum((o[i] % 2) * 2 ** i for i in range(k)) and all(v < 2 for v in o[:-1])]
+    elif pattern == 'dup':
+        # two sources are copies of each other (a non-trivial Gacs-Korner meet)
+        sup = [o for o in full if o[0] == o[1]]
+        if rng.random() < 0.5:
+            sup = [o for o in sup if o[-1] == o[0] % sizes[-1]] or sup
     elif pattern == 'random':
         sup = rng.sample(full, rng.randint(2, len(full)))
     else:
@@ -50,7 +63,7 @@ def gen_dist(rng, k, binary=False):
     if len(sup) < 2:
         sup = full
     kind = rng.choice(KINDS)
-    if kind == 'uniform':
+    if kind == 'uniform' or gate:
         ps = [1.0 / len(sup)] * len(sup)
     elif kind == 'random':
         ws = [rng.random() + 0.05 for _ in sup]
@@ -58,20 +71,24 @@ def gen_dist(rng, k, binary=False):
     else:
         ws = [rng.choice([1, 2, 3, 4]) for _ in sup]
         ps = [w / sum(ws) for w in ws]
-    return {'k': k, 'outs': sup, 'ps': ps, 'pattern': pattern, 'klass': rng.choice(['str', 'int'])}
+    # representation: sparse (support only) or dense (every combination stored, zeros explicit)
+    return {'k': k, 'outs': sup, 'ps': ps, 'pattern': pattern, 'klass': rng.choice(['str', 'int']), 'dense': rng.random() < 0.3}
 
 
 def generate(rng, tier):
-    n = 28 if tier == 'quick' else 280
+    n = 44 if tier == 'quick' else 400
     cases = []
     classes = ALWAYS + INCOMPLETE
     for i in range(n):
-        k = 2 if rng.random() < 0.7 else 3
-        d = gen_dist(rng, k)
-        cls = classes[i % len(classes)]
-        if cls in SLOW3:
-            k = 2
+        cls = classes[i % len(classes)] if i % 3 else FAST3[(i // 3) % len(FAST3)]
+        if cls in FAST3 and rng.random() < 0.6:
+            k = 3
+            gate = rng.choice([None, None, 'cat', 'xor', 'and', 'dup']) if cls in ('PID_MES', 'PID_RR', 'PID_Proj', 'PID_GK', 'PID_CCS') else None
+            d = gen_dist(rng, 3, binary=(cls in ('PID_CCS', 'PID_MES')), gate=gate)
+        elif cls in SLOW3 or cls in ('PID_BROJA', 'PID_CT', 'PID_IG'):
             d = gen_dist(rng, 2, binary=True)
+        else:
+            d = gen_dist(rng, 2)
         cases.append({'d': d, 'cls': cls, 'perm': rng.random() < 0.6, 'explicit': rng.random() < 0.5})
     return cases
 
@@ -83,15 +100,23 @@ def mk(d, perm=None):
         k = d['k']
         outs = [[o[perm[i]] for i in range(k)] + [o[-1]] for o in outs]
     if d['klass'] == 'str':
-        return dit.Distribution([''.join(map(str, o)) for o in outs], list(d['ps']))
-    return dit.Distribution([tuple(o) for o in outs], list(d['ps']))
+        x = dit.Distribution([''.join(map(str, o)) for o in outs], list(d['ps']))
+    else:
+        x = dit.Distribution([tuple(o) for o in outs], list(d['ps']))
+    if d.get('dense'):
+        x.make_dense()
+    return x
 
 
 def mk_raw(d):
     import dit
     if d['klass'] == 'str':
-        return dit.Distribution([''.join(map(str, o)) for o in d['outs']], list(d['ps']))
-    return dit.Distribution([tuple(o) for o in d['outs']], list(d['ps']))
+        x = dit.Distribution([''.join(map(str, o)) for o in d['outs']], list(d['ps']))
+    else:
+        x = dit.Distribution([tuple(o) for o in d['outs']], list(d['ps']))
+    if d.get('dense'):
+        x.make_dense()
+    return x
 
 
 def node_pos(node):
@@ -225,8 +250,10 @@ def to_coq(case, o):
     if always:
         item['goals'].append(bg('mobius_ok 1 %s && self_redundancy_ok 1 %s %s && top_ok %d%%nat %s %s' % (ob, ob, mis, k, ob, lib.qf(o['total']))))
         item['labels'].append('%s: Moebius identity, self-redundancy, top = I(all:target)' % case['cls'])
-    item['goals'].append(bg('pi_corr %d%%nat %s' % (k, ob)))
-    item['labels'].append('%s: atoms = Moebius inversion (model pis_list) of the reported redundancies' % case['cls'])
+    if always or o['consistent']:
+        # (an incomplete decomposition flagged inconsistent fills its atoms by other inference rules)
+        item['goals'].append(bg('pi_corr %d%%nat %s' % (k, ob)))
+        item['labels'].append('%s: atoms = Moebius inversion (model pis_list) of the reported redundancies' % case['cls'])
     ident = lib.natlist(list(range(k)))
     for key, what in (('table_explicit', 'sources listed in reverse order, target explicit'), ('table_tfirst', 'target stored first, sources explicit')):
         if key in o:
@@ -276,7 +303,7 @@ def nontrivial(case, o):
 
 
 def describe(case, o):
-    return {'cls': case['cls'], 'k': case['d']['k'], 'pattern': case['d']['pattern'],
+    return {'cls': case['cls'], 'k': case['d']['k'], 'pattern': case['d']['pattern'], 'dense': bool(case['d'].get('dense')),
             'flags': '%s/%s/%s' % (o.get('complete'), o.get('consistent'), o.get('nonnegative'))}
 
 
